@@ -62,14 +62,14 @@ type G struct {
 	inFunc bool
 	// statistics for non-triviality rules
 	TracerCalls, ShortCircuitTracers, BinaryOps, AnyWraps, EmptyTyped, ConstConvs int
-	OpPairs                                                           map[string]int
-	tracers                                                           map[string]*m.Func
-	noEmpty                                                           int
-	CyclesAvoided                                                     int
-	recs                                                              []*m.Func
-	Shadows, EarlyReturns, Breaks, blockID, TermChains                int
-	retType                                                           *m.Type // return type of the function being generated, nil at top level
-	RangeKinds                                                        map[string]int
+	OpPairs                                                                       map[string]int
+	tracers                                                                       map[string]*m.Func
+	noEmpty                                                                       int
+	CyclesAvoided                                                                 int
+	recs                                                                          []*m.Func
+	Shadows, EarlyReturns, Breaks, blockID, TermChains                            int
+	retType                                                                       *m.Type // return type of the function being generated, nil at top level
+	RangeKinds                                                                    map[string]int
 }
 
 // New creates a generator.
